@@ -84,6 +84,11 @@ class VTransport(asyncio.Transport):
             raise WorkBudgetExceeded(self.loop.budget_tripped)
         self.outq.append(data)
         self.loop.n_writes += 1
+        if self.loop.n_writes > self.loop.write_budget:
+            self.loop.budget_tripped = 'more than %d transport writes in one execution' \
+                % self.loop.write_budget
+            self.loop.write_budget *= 2
+            raise WorkBudgetExceeded(self.loop.budget_tripped)
 
     def writelines(self, lines):
         self.write(b''.join(lines))
@@ -230,6 +235,7 @@ class VLoop(asyncio.BaseEventLoop):
         self.n_handles = 0
         self.n_writes = 0
         self.budget_tripped = None
+        self.write_budget = 200000          # transport writes per execution (spin guard)
         self.handle_cap = None              # per-quiesce cap on handles (C10)
         self.resolver = {}                  # host -> addr
         self.set_exception_handler(self._on_exception)
@@ -396,6 +402,8 @@ class VLoop(asyncio.BaseEventLoop):
         while self._ready or self._due():
             self.step()
             n += 1
+            if self.budget_tripped:
+                raise Livelock(self.budget_tripped)
             if n > horizon or (self.handle_cap is not None and
                                self.n_handles - start > self.handle_cap):
                 self.budget_tripped = self.budget_tripped or \
@@ -521,6 +529,28 @@ class VLoop(asyncio.BaseEventLoop):
                 raise Livelock('flush_all horizon')
 
     # -- lifecycle --------------------------------------------------------
+    def arm_watchdog(self, seconds=30):
+        """Wall-clock guard for one execution: a spin inside a single callback becomes a
+        reported Livelock instead of a hung check"""
+        import signal
+
+        def on_alarm(_sig, _frm):
+            self.budget_tripped = 'execution exceeded %d s of wall time inside the loop' % seconds
+            signal.setitimer(signal.ITIMER_REAL, 5)     # keep firing until control returns
+            raise WorkBudgetExceeded(self.budget_tripped)
+        try:
+            signal.signal(signal.SIGALRM, on_alarm)
+            signal.setitimer(signal.ITIMER_REAL, seconds)
+            self._watchdog = True
+        except ValueError:          # not in the main thread
+            self._watchdog = False
+
+    def disarm_watchdog(self):
+        if getattr(self, '_watchdog', False):
+            import signal
+            signal.setitimer(signal.ITIMER_REAL, 0)
+            self._watchdog = False
+
     def install(self):
         self._prev_running = events._get_running_loop()
         events._set_running_loop(self)
